@@ -263,7 +263,7 @@ class Result(abc.ABC):
             max_val = math.prod(base_list) - 1
             if max_val > np.iinfo(np.int64).max:
                 return None
-            powers = np.hstack((np.cumprod(base_list[:0:-1])[::-1], [1]))
+            powers = np.hstack((np.cumprod(base_list[:0:-1], dtype=np.int64)[::-1], [1]))
 
         if n_repetitions == 0:
             return collections.Counter()
